@@ -103,14 +103,15 @@ PROPS['C12'] = {
 PROPS['C03'] = {
     'title': 'Bitmap indexes always equal their predicate over the current values',
     'modules': ['ColumnVerif.Props.C03'],
-    'runs': [{'mode': 'store'}],
+    'runs': [{'mode': 'store'}, {'mode': 'sched'}],
     'trusted_base': STORE_TB,
     'assumptions': [
         "IndexInv theorems are for numeric target columns with canonical Put ops (value of the column's width) and merge functions returning non-empty values; string targets follow the same pass but with the D12 guard (no op after a resizing merge) — exercised by the correspondence",
         "the index rule is an arbitrary function of the op the reader shows (type, offset, value)",
         "store-level registry plumbing (several computed columns per target, findCol/setCol) is exercised by the correspondence, the theorems are per (column, index) pair over mainPass/sections/back-fill",
+        "the theorems are sequential; that back-fill and commits to one chunk do not interleave is the chunk latch (C15conc.latch_exclusive) — the back-fill takes it since the repair of D24, which the scheduler scenario index-backfill re-checks on every run",
     ],
-    'level_text': "Lean theorems over the executable index model: the index bit of an offset is the fold of the Put/Delete ops addressed to it (rule on Put, clear on Delete); the main pass rewrites every Merge into a Put of the value stored right after it, so the computed pass hands the rule the merged value; IndexInv (bit ⇔ present ∧ rule(current value)) is preserved by a section pass, by marker sections, by the real commitUpdates order (main pass over all sections, then computed pass) and by the model's mainPass; the back-fill of CreateIndex establishes it for every committed chunk (index created after the data; restore uses the same pass). Tied to the code by differential histories with indexes created/dropped at any point and a Go-side oracle recomputing every index from the values read back.",
+    'level_text': "Lean theorems over the executable index model: the index bit of an offset is the fold of the Put/Delete ops addressed to it (rule on Put, clear on Delete); the main pass rewrites every Merge into a Put of the value stored right after it, so the computed pass hands the rule the merged value; IndexInv (bit ⇔ present ∧ rule(current value)) is preserved by a section pass, by marker sections, by the real commitUpdates order (main pass over all sections, then computed pass) and by the model's mainPass; the back-fill of CreateIndex establishes it for every committed chunk (index created after the data; restore uses the same pass). Tied to the code by differential histories with indexes created/dropped at any point and a Go-side oracle recomputing every index from the values read back; index creation beside a writer of the indexed column is explored by the controlled scheduler (the back-fill is parked between reading a chunk and indexing it through a user-defined hook column; defect D24, repaired).",
     'technique': 'Lean 4 proof (invariant over op lists / sections / back-fill) + model/implementation correspondence',
     'design_ref': '§6 C03',
 }
